@@ -56,6 +56,15 @@ CHECKS = {
              "calls must raise TypeError/ValueError and write nothing; arguments compared with deep copies. Every payload length "
              "0..1100 and 65530..65545 x 4 fixed keys x text/binary is enumerated.",
         note="Trusts harness/wire.py strict decoder and harness/deflateref.py (zlib) for RSV1 frames."),
+    "C07": dict(
+        category="exploration", design_ref="DESIGN.md section 3 / C07",
+        technique="bounded exhaustive enumeration of server/application histories + Hypothesis long scripts, checked by an event-grammar monitor on a virtual clock",
+        text="Every history of 3 (quick) or 4 (thorough) server steps over a 19-symbol alphabet x 9 application policies x 2 option "
+             "sets is run on the simulated transport (exhaustive to that depth, ~10^5 / ~2x10^6 connections); Hypothesis adds scripts "
+             "of up to 40 steps with per-event reactions, address lists and random timer settings. A monitor checks the grammar of "
+             "the statement and that iteration ends (no hang once EOF/reset has been delivered, StopIteration afterwards, no "
+             "escaping exception). Liveness is judged on the virtual clock only.",
+        note="Termination = the iterator ends within a bounded number of loop cycles after the transport ended (HarnessHang otherwise)."),
 }
 
 PENDING = {}
